@@ -167,6 +167,8 @@ def part_limits(c):
                 ln += len(b)
             if ln > 5 * 1024 * MiB:
                 return 'decision: part above 5 GiB'
+            if ln < 1:
+                return 'decision: empty part (part numbers are not 1..ceil(size/part))'
             if pn != n and ln < 5 * MiB:
                 return 'decision: non-final part below 5 MiB'
     return None
